@@ -25,7 +25,12 @@ def main():
         d = Path(d)
         prop = d.name.split("_")[-1]
         for seed in sorted(d.glob("seed_*")):
-            name = f"{prop}-{seed.name.split('_')[-1]}"
+            # later rounds continue the numbering of what is already stored for the property
+            taken = {int(x.name.split("-")[-1]) for x in (VERIF / "seeded").glob(f"{prop}-*") if x.name.split("-")[-1].isdigit()}
+            number = int(seed.name.split("_")[-1])
+            if d.name.startswith("seed2_"):
+                number = max(taken | {0}) + 1
+            name = f"{prop}-{number}"
             dest = VERIF / "seeded" / name
             wt = tempfile.mkdtemp(prefix="verif-seedchk-")
             os.rmdir(wt)
